@@ -8,7 +8,55 @@ sys.path.insert(0, os.path.dirname(os.path.abspath(__file__)))
 TREE = ("C01", "C02", "C03", "C07", "C08", "C16", "C17")
 
 
+COMPILED = ("C01", "C02", "C03", "C05", "C06", "C07", "C08", "C10", "C16", "C17")
+
+
+def compiled_pass(prop, rc):
+    """Thorough tier: repeat the quick-size run on the Cython build of the working
+    tree (built fresh in a scratch directory) and fold the outcome in."""
+    import json
+    import subprocess
+
+    env = dict(os.environ, BT_VERIF_BUILD="compiled", BT_VERIF_EVIDENCE_SUFFIX=".compiled", VERIF_TIER="quick")
+    p = subprocess.run([sys.executable, os.path.abspath(__file__), prop, "--tier", "quick"], env=env, capture_output=True, text=True)
+    lines = [l for l in p.stdout.splitlines() if l.startswith(("VIOLATION", "KNOWN-FINDING", "  "))]
+    for l in lines:
+        if l.startswith("VIOLATION") or l.startswith("  "):
+            print(l + ("   [compiled build]" if l.startswith("VIOLATION") else ""))
+    evp = os.path.join(os.path.dirname(os.path.dirname(os.path.abspath(__file__))), "evidence", prop + ".json")
+    sub = evp.replace(".json", ".compiled.json")
+    try:
+        ev = json.load(open(evp))
+        ce = json.load(open(sub)) if os.path.exists(sub) else {}
+        ev["coverage"]["compiled_build"] = {"exit": p.returncode, "traces_validated_against_impl": ce.get("coverage", {}).get("traces_validated_against_impl"),
+                                            "verdicts": ce.get("coverage", {}).get("verdicts"), "sources": ce.get("coverage", {}).get("sources"), "wall_s": ce.get("wall_s")}
+        if p.returncode == 1:
+            ev["violations"] = ev.get("violations", 0) + ce.get("violations", 1)
+        json.dump(ev, open(evp, "w"), indent=1, default=str)
+        if os.path.exists(sub):
+            os.remove(sub)
+    except Exception as e:  # noqa: BLE001
+        print("MACHINERY-ERROR: compiled pass evidence merge failed: %s" % e, file=sys.stderr)
+        return 2
+    if p.returncode == 2:
+        print("MACHINERY-ERROR: compiled-build pass failed:\n" + p.stderr[-1500:], file=sys.stderr)
+        return 2
+    return max(rc, p.returncode)
+
+
 def main():
+    rc = _main()
+    a = sys.argv[1:]
+    tier = os.environ.get("VERIF_TIER", "quick")
+    if "--tier" in a:
+        tier = a[a.index("--tier") + 1]
+    if (a and a[0] in COMPILED and tier == "thorough" and "--replay" not in a and rc in (0, 1)
+            and os.environ.get("BT_VERIF_BUILD") != "compiled"):
+        rc = compiled_pass(a[0], rc)
+    return rc
+
+
+def _main():
     ap = argparse.ArgumentParser()
     ap.add_argument("prop")
     ap.add_argument("--tier", default=os.environ.get("VERIF_TIER", "quick"), choices=["quick", "thorough"])
